@@ -410,8 +410,11 @@ def c01 (v : StepView) : Verdict :=
     if sys.any (·.kind != "mount") then bad "mount issued an unmount call" else
     -- idempotence first (it holds for every layerconfig, sane or not): repeating a
     -- successful mount performs no mount operation at all
+    -- (the command repeated is `mount`: a preceding `chroot` of a layer that is itself mounted
+    -- skips its implicit mount, so an import an ancestor lost by hand is not made good by it and
+    -- the `mount` that follows has something to do — false alarm of the thorough tier, seed 12)
     let repeated := match v.prevStep with
-      | some p => (cmdOf p == "mount" || cmdOf p == "chroot") && argOf p 0 == a0 && v.prevCls == "ok"
+      | some p => cmdOf p == "mount" && argOf p 0 == a0 && v.prevCls == "ok"
                   && !getBool p "pretend" && (optNat p "fault").isNone && (optNat p "crash").isNone
       | none => false
     if repeated && !sys.isEmpty then bad "repeating a successful mount issued mount operations" else
